@@ -25,12 +25,17 @@ SPEC = dict(
              'from_cell, Builder.end_cell / to_cell / to_slice are REGENERATED from the Python source on every run as heap transformers '
              '(Generated/HeapSrc.lean: which container of the new object is a copy, which the receiver\'s own) and Lean proves each equal to the '
              'model transition `derive` on every well-formed heap (c08_src_step), so separation and immutability hold of the regenerated steps '
-             '(c08_src_separation, c08_src_immutable); all other transitions (loads, stores, Cell(...) keeping the caller\'s containers, '
-             'composite parsers) remain hand model + sampled correspondence.',
+             '(c08_src_separation, c08_src_immutable). Of the loads / stores, the two that MOVE REFERENCES are regenerated too: '
+             'Builder.store_ref (appends the very object it is given to the builder\'s own list container, in place; raises at 4 entries) = model '
+             'storeRef (c08_src_store_step) and Slice.load_ref (hands out the very Cell object in the list, changes only ref_offset) = model loadRef '
+             '(c08_src_load_step); c08_src_separation_mut / c08_src_immutable_mut extend separation and immutability to histories containing them. '
+             'All other transitions (store_cell / store_slice / store_builder / store_bits / store_uint, load_bits / skip_bits / load_uint, '
+             'Cell(...) keeping the caller\'s containers, composite parsers) remain hand model + sampled correspondence.',
         level_note='For the eleven copy / derive methods: the translator harness/translate/pyheap.py with the declared interface of heapsrc.py '
                    '(attribute -> record field, x.copy() / x[k:] = a new container, Slice(..) / Cell(..) keep the pointers given, Builder() = two new '
                    'empty containers, store_cell / store_slice = the model\'s storeFrom), validated on every change against Python object identities '
-                   '(49 calls over a 13-object pool). For everything else: '
+                   '(64 calls over a 14-object pool; l.append(x) = in-place extension of the list container by the object itself, l[k] = the '
+                   'object stored there, list elements are Cell objects as annotated). For everything else: '
                    'Trusted: Lean kernel (propext, Classical.choice, Quot.sound); Model/Heap.lean as a faithful hand transcription of which '
                    'containers each call in cell.py / slice.py / builder.py / deserialize.py copies, shares or mutates (checked by sampled '
                    'correspondence only); composite parsers are represented by their observable effect (bits dropped, refs loaded, '
@@ -1606,7 +1611,27 @@ def src_search(ctx):
     pool heap; for every differing (receiver kind, method) a short history is run through the full oracle (frame check + alias exploit:
     if the new object shares a container with its source, a library mutation through one of them shows up in the other)"""
     seen = set()
-    for recv, cls, m in heapsrc.diff_cases(ctx):
+    for case in heapsrc.diff_cases(ctx):
+        recv, cls, m = case[:3]
+        if len(case) == 4:
+            # a regenerated LOAD / STORE differs from the model transition: short histories around that call through the full oracle
+            # (alias-graph correspondence after every step, frame check of all cells, alias exploit), then the derived objects observed
+            if m in seen:
+                continue
+            seen.add(m)
+            hists = ([['bn:B', 'sr:5:0', 'sr:5:2', 'dv:5:end_cell', 'sr:5:1', 'ob:6:hash', 'ob:2:hash'],
+                      ['bn:B', 'sr:5:2', 'sr:5:2', 'sr:5:2', 'sr:5:2', 'sr:5:2', 'dv:5:end_cell', 'ob:2:hash']] if m == 'store_ref' else
+                     [['dv:2:begin_parse', 'lr:5', 'lr:5', 'dv:5:to_cell', 'ob:1:hash', 'ob:2:hash', 'ob:0:hash'],
+                      ['dv:1:begin_parse', 'lr:5', 'lr:5', 'ob:1:hash', 'ob:0:hash']])
+            for steps in hists:
+                try:
+                    rerun(ctx, {'init': SRC_CELLS, 'steps': steps})
+                except (ValueError, IndexError, KeyError) as e:
+                    ctx.notes.append(f'src_search: history {steps} not runnable: {type(e).__name__}: {e}')
+                ctx.case(('src-search', tuple(steps)))
+                if ctx.failures:
+                    return
+            continue
         tag = heapsrc.POOL_TAGS[recv]
         if (tag, m) in seen:
             continue
